@@ -4,7 +4,8 @@ import vf
 
 PROP = "C09"
 THEOREMS = ["pass_frame", "pass_atomic", "pass_fault_evidence_exact", "pass_success_shape", "pass_canonical_order",
-            "rejection_is_receipt", "quarantine_local", "recovery_restores_runnable", "runtime_wf_preserved",
+            "rejection_is_receipt", "quarantine_local", "recovery_restores_runnable", "recovery_clears_runtime_fault",
+            "runtime_wf_preserved",
             "correlation_rollback_exact"]
 PRE = ("From Coq Require Import List NArith.\nFrom Echo Require Import Base.FinMap Model.Pass.\n"
        "Import ListNotations.\nOpen Scope N_scope.\n")
@@ -192,48 +193,66 @@ def gen_cases(rng, tier):
 
 # ----------------------------------------------------------------------------- model side
 
-def hk(w, h):
-    return f"({vf.coq_hexN(sh(w))},{vf.coq_hexN(sh(h))})"
+class Ranks:
+    """Order-preserving renaming of 256-bit ids to small numbers for the model run.  The model only compares ids
+    (BTreeMap order = numeric order of the big-endian value), so evaluating it on ranks and printing the original
+    ids back is exact; it keeps vm_compute, parsing and printing of 77-digit numerals out of the loop."""
+    def __init__(self, worlds, heads, ids):
+        self.w = {v: i + 1 for i, v in enumerate(sorted(set(worlds) | {h[0] for h in heads}))}
+        self.h = {v: i + 1 for i, v in enumerate(sorted({h[1] for h in heads}))}
+        self.i = {v: i + 1 for i, v in enumerate(sorted(set(ids)))}
+        self.wi = {v: k for k, v in self.w.items()}
+        self.hi = {v: k for k, v in self.h.items()}
+        self.ii = {v: k for k, v in self.i.items()}
+
+    def hk(self, w, h):
+        return f"({self.w[w]},{self.h[h]})"
 
 
 def to_term(line, ids):
     """ids: {(head index, beh, tag): ingress id as int} taken from the harness (`IngressEnvelope::ingress_id`)"""
     worlds, heads, ops = parse_case(line)
+    rk = Ranks(worlds, heads, ids.values())
     tbl = {}
     terms = []
     for o in ops:
         c, f = o[0], o[1:].split(".")
         if c in "it":
             h, beh, tag = int(f[0]), int(f[1]), int(f[2])
-            i = ids[(h, beh, tag)]
+            i = rk.i[ids[(h, beh, tag)]]
             tbl[i] = BEH_CLASS[beh]
-            k = hk(heads[h][0], heads[h][1])
+            k = rk.hk(heads[h][0], heads[h][1])
             if c == "i":
-                terms.append(f"OpIngest {k} {vf.coq_hexN(sh(i))}")
+                terms.append(f"OpIngest {k} {i}")
             else:
-                terms.append(f"OpTicketed {k} {vf.coq_hexN(sh(i))} {int(f[3])}")
+                terms.append(f"OpTicketed {k} {i} {int(f[3])}")
         elif c == "p":
             terms.append("OpPass")
         elif c == "r":
             terms.append(f"OpResolve {int(f[0])} {int(f[0])}")
         elif c == "e":
             h = int(f[0])
-            terms.append(f"OpElig {hk(heads[h][0], heads[h][1])} {'true' if f[1] == '1' else 'false'}")
+            terms.append(f"OpElig {rk.hk(heads[h][0], heads[h][1])} {'true' if f[1] == '1' else 'false'}")
         elif c == "x":
             terms.append("OpSwapProv")
-    t = ";".join(f"({vf.coq_hexN(sh(i))},{c})" for i, c in sorted(tbl.items()))
-    ws = ";".join(vf.coq_hexN(sh(w)) for w in worlds)
-    hs = ";".join(f"({hk(w, h)},({'PAll' if pol == 'a' else 'PBudget ' + pol[1:]},{'true' if paused else 'false'}))"
+    t = ";".join(f"({i},{c})" for i, c in sorted(tbl.items()))
+    ws = ";".join(str(rk.w[w]) for w in worlds)
+    hs = ";".join(f"({rk.hk(w, h)},({'PAll' if pol == 'a' else 'PBudget ' + pol[1:]},{'true' if paused else 'false'}))"
                   for (w, h, pol, paused) in heads)
-    return f"run_case [{t}] [{ws}] [{hs}] [{';'.join(terms)}]"
+    return f"run_case [{t}] [{ws}] [{hs}] [{';'.join(terms)}]", rk
 
 
 def head_str(k):
     return f"{sh(k[0])}.{sh(k[1])}"
 
 
-def render_dump(v):
+def render_dump(v, rk):
     g, fronts, heads, faults, rtf, cors, ps, rq = v
+    fronts = [(rk.wi[w], t, pl, [rk.ii[i] for i in st], [(rk.hi[h], rk.ii[i]) for (h, i) in cm]) for (w, t, pl, st, cm) in fronts]
+    heads = [(rk.wi[kw], rk.hi[kh], [rk.ii[i] for i in pend], a, pa, fa) for (kw, kh, pend, a, pa, fa) in heads]
+    faults = [(gen, (sc[0], (rk.wi[sc[1][0]], rk.hi[sc[1][1]])) if sc[0] == 0 else sc, st, ca) for (gen, sc, st, ca) in faults]
+    cors = [(rk.wi[cw], rk.hi[ch], rk.ii[ci], ta, gt) for (cw, ch, ci, ta, gt) in cors]
+    rq = [(rk.wi[w], rk.hi[h]) for (w, h) in rq]
     out = f"g={g}"
     for (w, tick, plen, state, comm) in fronts:
         ev = sorted({short(i) for i in state})
@@ -257,10 +276,11 @@ def render_dump(v):
     return out
 
 
-def render_model(val):
+def render_model(val, rk):
     toks = []
-    last = None
-    for (kind, a, b, recs, v) in val:
+    steps, last = val
+    for (kind, a, b, recs, vs) in steps:
+        v = vs[0] if vs else None
         if kind == 0:
             toks.append({0: "A", 1: "D", 2: "E:unknown-head"}[a])
         elif kind == 1:
@@ -269,18 +289,17 @@ def render_model(val):
             toks.append(first + second)
         elif kind == 2:
             if a == 0:
-                rs = "+".join(f"{head_str((r[0], r[1]))}={r[2]}@{r[3]}/{r[4]}" for r in recs) or "-"
-                toks.append(f"P:ok:{rs}[{render_dump(v)}]")
+                rs = "+".join(f"{head_str((rk.wi[r[0]], rk.hi[r[1]]))}={r[2]}@{r[3]}/{r[4]}" for r in recs) or "-"
+                toks.append(f"P:ok:{rs}[{render_dump(v, rk)}]")
             else:
-                toks.append(f"P:{ERR[a]}[{render_dump(v)}]")
+                toks.append(f"P:{ERR[a]}[{render_dump(v, rk)}]")
         elif kind == 3:
             toks.append({0: "R:ok", 1: "R:unknown", 2: "R:already"}[a])
         elif kind == 4:
             toks.append("E" if a == 0 else "e")
         elif kind == 5:
             toks.append("X")
-        last = v
-    toks.append(f"END[{render_dump(last)}]")
+    toks.append(f"END[{render_dump(last, rk)}]")
     return "|".join(toks)
 
 
@@ -298,7 +317,12 @@ def parse_ids(line):
 
 VIEW_PRE = PRE + ("Definition stepv (s : step) := (st_head s, st_count s, st_tick_after s, st_gtick s).\n"
                   "Definition outv (o : oout) := let '(k, a, b, recs) := o in (k, a, b, map stepv recs).\n"
-                  "Definition run_view tbl ws hs ops := map (fun ov => (outv (fst ov), snd ov)) (run_case tbl ws hs ops).\n")
+                  "Definition is_pass (o : oout) : bool := let '(k, _, _, _) := o in k =? 2.\n"
+                  "(* the state is printed after every pass and at the end only (printing dominates the run time) *)\n"
+                  "Definition run_view tbl ws hs ops :=\n"
+                  "  let res := run_ops tstate (table_commit tbl) (rt_init [] ws hs) ops in\n"
+                  "  (map (fun os => (outv (fst os), if is_pass (fst os) then [view (snd os)] else [])) res,\n"
+                  "   view (last (map snd res) (rt_init [] ws hs))).\n")
 
 
 def both(tag, cases, bins):
@@ -309,15 +333,17 @@ def both(tag, cases, bins):
     lines = [l for l in out.splitlines() if l.startswith("ids=")]
     if len(lines) != len(cases):
         raise vf.Broken(f"harness c09 printed {len(lines)} lines for {len(cases)} cases: {out[-600:]}")
-    impl, oracle, stats, terms = [], [], [], []
+    impl, oracle, stats, terms, rks = [], [], [], [], []
     for c, l in zip(cases, lines):
         body = l.split(" out=", 1)[1]
         impl.append(body.split(" fp=")[0])
         oracle.append(body.split(" oracle=")[1].split()[0] if " oracle=" in body else "FAIL:no-oracle")
         stats.append(dict(kv.split(":") for kv in body.rsplit(" stats=", 1)[1].split(",")) if " stats=" in body and "stats=-" not in body else {})
-        terms.append("run_view" + to_term(c, parse_ids(l))[len("run_case"):])
+        t, rk = to_term(c, parse_ids(l))
+        terms.append("run_view" + t[len("run_case"):])
+        rks.append(rk)
     vals = vf.coq_eval(tag, VIEW_PRE, terms)
-    model = [render_model(v) for v in vals]
+    model = [render_model(v, rk) for v, rk in zip(vals, rks)]
     return impl, model, oracle, stats
 
 
